@@ -55,6 +55,12 @@ def collect(ctx):
             d["src"] = vlib.unesc(r[2])
         elif k == "WT":
             d["wt"][r[2]] = r[3]
+        elif k == "GO":
+            d["go"] = r[2]
+        elif k == "SIGTPARAMS":
+            d["sigtparams"] = set(r[2].split()) if len(r) > 2 else set()
+        elif k == "TPARAMS":
+            d["tparams"] = set(r[2].split()) if len(r) > 2 else set()
         elif k == "ANN":
             d["ann"][r[2]] = (int(r[3]), r[4] if len(r) > 4 else "")
         elif k == "ILL":
@@ -120,7 +126,13 @@ def run(ctx):
                 else:
                     kindset = set()
                     for item in r[3].split(" ;; "):
-                        kindset.update(item.rsplit(":", 1)[-1].split(","))
+                        for kk in item.rsplit(":", 1)[-1].split(","):
+                            m = re.match(r"param-in-type-definition\((.*)\)", kk)
+                            if m:
+                                # phantom parameter (occurs in no function signature): the known finding `param`
+                                names = set(m.group(1).split("+"))
+                                kk = "param" if not (names & d.get("sigtparams", set())) else "param-in-type-definition"
+                            kindset.add(kk)
                     for kk in sorted(kindset):
                         if ("closed", kk) in seen:
                             continue
@@ -142,6 +154,16 @@ def run(ctx):
                 ctx.report({"oracle": "dropped-annotation", "first_stage": st, "node": node},
                            f"the type stored on a {node} node of the {st} IR differs from the type of the sub-expression it repeats",
                            {"id": k, "src": src})
+        # the emitted Go: no type may be a type parameter of the source, or an instance named after one
+        if d.get("go") and d.get("tparams") and "ill" not in d:
+            declared = set(re.findall(r"\((?:enum|struct) ([^\s()]+) ", d["wt"].get("core", "")))
+            # (type parameters that occur in no function signature are phantom: the known finding covers them)
+            tps = (d["tparams"] - declared) & d.get("sigtparams", set())
+            bad = sorted({n for n in re.findall(r"\(name ([^\s()]+)\)", d["go"]) if any(seg in tps for seg in re.split(r"__", n))})
+            if bad and ("closed", "go") not in seen:
+                ctx.report({"oracle": "closed", "first_stage": "go" if not any(x[0] == "closed" for x in seen if isinstance(x, tuple)) else "earlier", "residue": "type-parameter-in-go-type-name"},
+                           "the emitted Go mentions a type that is a type parameter of the source program (or an instance named after one)",
+                           {"id": k, "src": src, "go_type_names": bad[:8]})
         if "panic" in d and "ill" not in d:
             later_panics[d["panic"][0]] = later_panics.get(d["panic"][0], 0) + 1
         if d["wt"] and "ill" not in d:
